@@ -11,6 +11,7 @@
   (after bce4be0, the repair of finding F-C18a); `filterTargetsUnrepaired` is the variant before it.
 -/
 import IcingaProofs.C18.Lemmas
+import IcingaProofs.C18.Lookup
 import IcingaProofs.Gen.Permissions
 
 namespace Icinga.C18
@@ -478,5 +479,192 @@ example : specQuery exUser exQD exAll exInv ⟨.ok [⟨"Host", "ghost"⟩], none
 example : specAccess exUser "objects/query/Host" exH0 true = none ∧
     specAccess [⟨"objects/query/*", some (fun _ o => some (o.name == "h1"))⟩] "objects/query/Host" exH0 true
       = some .grantedAllowed := by decide
+
+/-! ### Further entry points: actions of every type list, the by-name lookup of execute-command, objects changed by a
+    modify request, bare permission checks, object creation -/
+
+/-- **action_targets_subset_allowed.**  For every action and every list of registered types (Host/Service, with Comment
+    or Downtime, or anything else) the objects the ActionsHandler obtains — and invokes the action on — are allowed under
+    `actions/<name>` and registered. -/
+theorem action_targets_subset_allowed (u : User) (action : String) (types : List String) (q : Query) (inv : Inventory)
+    (objs : List Obj) (h : (filterTargets u (actionQDT action types) q inv).result = .ok objs) :
+    ∀ o ∈ objs, Allowed u ("actions/" ++ action) o ∧ o ∈ inv := by
+  have hne : (actionQDT action types).permission ≠ "" := by
+    intro h0
+    have := congrArg String.length h0
+    simp [actionQDT, String.length_append] at this
+  exact targets_subset_allowed u (actionQDT action types) q inv objs hne h
+
+/-- **lookup_by_name_allowed.**  What `GetSingleObjectByNameUsingPermissions(T, name, user)` hands out (to
+    execute-command: the endpoint, the command, the user, the notification) is the registered object of type `T` and
+    that name, and the user is allowed to query it: `objects/query/T` matches and its filter is true of the object. -/
+theorem lookup_by_name_allowed (u : User) (type name : String) (inv : Inventory) (o : Obj)
+    (h : lookupByPermission u type name inv = some o) :
+    Allowed u ("objects/query/" ++ type) o ∧ o ∈ inv ∧ o.type = type ∧ o.name = name := by
+  unfold lookupByPermission at h
+  cases hr : (filterTargets u (handlerQD "query" type) (lookupQuery type name) inv).result with
+  | error e => simp [hr] at h
+  | ok objs =>
+    obtain ⟨o', rfl, hl⟩ := singleName_result u "query" type name inv objs hr
+    simp only [hr, Option.some.injEq] at h
+    subst h
+    have hne : (handlerQD "query" type).permission ≠ "" := by
+      intro h0
+      have := congrArg String.length h0
+      simp [handlerQD, String.length_append] at this
+    have ha := targets_subset_allowed u (handlerQD "query" type) (lookupQuery type name) inv [o'] hne hr o' (by simp)
+    exact ⟨by simpa [handlerQD] using ha.1, ha.2, lookup_type hl, lookup_name hl⟩
+
+/-- **model_lookup_meets_spec.**  … and hence the executable clause holds of the model's lookup, for every user,
+    type, name and inventory. -/
+theorem model_lookup_meets_spec (u : User) (type name : String) (inv : Inventory) :
+    specLookup u type name inv (lookupByPermission u type name inv) = none := by
+  cases hr : lookupByPermission u type name inv with
+  | none => rfl
+  | some o =>
+    obtain ⟨ha, hin, ht, hn⟩ := lookup_by_name_allowed u type name inv o hr
+    have hb := (allowedB_iff _ _ _).2 ha
+    have hm : someMatch u ("objects/query/" ++ type) = true := by
+      obtain ⟨p, hp, hw, _⟩ := ha
+      simp only [someMatch, List.any_eq_true]
+      exact ⟨p, hp, hw⟩
+    simp [specLookup, hm, ht, hn, hin, hb]
+
+/-- hypotheses satisfiable: a permitted endpoint is handed out, a forbidden and a missing one are not, and the clause
+    rejects handing out the forbidden one or another object than the one named -/
+example :
+    let u : User := [⟨"objects/query/Endpoint", some (fun _ o => some (o.name == "agent"))⟩]
+    let inv : Inventory := [⟨"Endpoint", "agent"⟩, ⟨"Endpoint", "master"⟩, ⟨"Host", "agent"⟩]
+    lookupByPermission u "Endpoint" "agent" inv = some ⟨"Endpoint", "agent"⟩ ∧
+    lookupByPermission u "Endpoint" "master" inv = none ∧ lookupByPermission u "Endpoint" "nope" inv = none ∧
+    lookupByPermission u "Host" "agent" inv = none ∧
+    specLookup u "Endpoint" "master" inv (some ⟨"Endpoint", "master"⟩) = some .returnedAllowed ∧
+    specLookup u "Endpoint" "master" inv (some ⟨"Endpoint", "agent"⟩) = some .lookupNamed ∧
+    specLookup u "Host" "agent" inv (some ⟨"Host", "agent"⟩) = some .rejectedFirst := by decide
+
+/-- **modify_changes_subset_allowed.**  The objects a modify request changes are allowed under `objects/modify/<Type>`
+    and registered; when no entry matches that permission nothing is changed. -/
+theorem modify_changes_subset_allowed (u : User) (type : String) (pathName : Option String) (q : Query) (inv : Inventory) :
+    (∀ o ∈ modifyChanged u type pathName q inv, Allowed u ("objects/modify/" ++ type) o ∧ o ∈ inv) ∧
+    specChanged u ("objects/modify/" ++ type) (modifyChanged u type pathName q inv) = none := by
+  have hne : "objects/modify/" ++ type ≠ "" := by
+    intro h0
+    have := congrArg String.length h0
+    simp [String.length_append] at this
+  have hall : ∀ o ∈ modifyChanged u type pathName q inv, Allowed u ("objects/modify/" ++ type) o ∧ o ∈ inv := by
+    intro o ho
+    unfold modifyChanged at ho
+    cases hr : handlerTargets u "modify" type pathName q inv with
+    | error e => simp [hr] at ho
+    | ok objs =>
+      simp only [hr] at ho
+      exact handler_targets_subset_allowed u "modify" type pathName q inv objs hr o ho
+  refine ⟨hall, ?_⟩
+  unfold specChanged
+  have hne' : (("objects/modify/" ++ type) == "") = false := by simp [hne]
+  simp only [hne', Bool.false_eq_true, if_false]
+  by_cases hm : someMatch u ("objects/modify/" ++ type) = true
+  · have h2 : ((modifyChanged u type pathName q inv).any fun o => !allowedB u ("objects/modify/" ++ type) o) = false := by
+      simp only [List.any_eq_false]
+      intro o ho
+      simp [(allowedB_iff _ _ _).2 (hall o ho).1]
+    simp [hm, h2]
+  · have hm' : someMatch u ("objects/modify/" ++ type) = false := by simpa using hm
+    have hempty : modifyChanged u type pathName q inv = [] := by
+      cases hc : modifyChanged u type pathName q inv with
+      | nil => rfl
+      | cons o rest =>
+        exfalso
+        obtain ⟨p, hp, hw, _⟩ := (hall o (by simp [hc])).1
+        have : someMatch u ("objects/modify/" ++ type) = true := by
+          simp only [someMatch, List.any_eq_true]
+          exact ⟨p, hp, hw⟩
+        rw [hm'] at this
+        cases this
+    simp [hm', hempty]
+
+/-- non-vacuity: a type-wide modify request changes exactly the allowed host; the clause rejects a change of the other
+    host and any change by a user without a matching entry -/
+example :
+    let u : User := [⟨"objects/modify/*", some (fun _ o => some (o.name == "h1"))⟩]
+    modifyChanged u "Host" none {} exInv = [exH1] ∧
+    specChanged u "objects/modify/Host" [exH0, exH1] = some .changedAllowed ∧
+    specChanged [⟨"actions/*", none⟩] "objects/modify/Host" [exH1] = some .rejectedFirst := by decide
+
+/-- **bare_check_grants_only_with_match.**  The handlers that only call `CheckPermission(user, perm)` — console, config
+    packages/stages/files, debug, actions without types, events — answer 200 only if some entry of the user matches
+    their permission. -/
+theorem bare_check_grants_only_with_match (u : User) (perm : String) (hperm : perm ≠ "")
+    (h : grantStatus u perm = 200) : someMatch u perm = true := by
+  unfold grantStatus at h
+  rw [hasPermission_of_ne hperm] at h
+  cases hm : someMatch u perm with
+  | true => rfl
+  | false => simp [hm] at h
+
+/-! #### Object creation (finding F-C18b)
+
+  Full statement (NOT a theorem of the code as it is):
+    `∀ u type o, specCreate u type o (createGranted u type) = none`
+  — an object comes into being only if an entry matches `objects/create/<Type>` whose filter, if it has one, is true of
+  the object.  CreateObjectHandler calls `CheckPermission(user, perm)` without a filter pointer
+  (createobjecthandler.cpp:44), so the filter of a matching entry is never looked at. -/
+
+/-- **create_grant_partial.**  The statement holds exactly for users none of whose entries matching
+    `objects/create/<Type>` carries a filter (and always as far as "some entry matches" goes). -/
+theorem create_grant_partial (u : User) (type : String) (o : Obj)
+    (hnofilter : ∀ p ∈ u, wildMatch p.pattern ("objects/create/" ++ type) = true → p.filter = none) :
+    specCreate u type o (createGranted u type) = none := by
+  have hne : "objects/create/" ++ type ≠ "" := by
+    intro h0
+    have := congrArg String.length h0
+    simp [String.length_append] at this
+  unfold specCreate createGranted
+  rw [hasPermission_of_ne hne]
+  cases hm : someMatch u ("objects/create/" ++ type) with
+  | false => simp
+  | true =>
+    obtain ⟨p, hp, hw⟩ : ∃ p ∈ u, wildMatch p.pattern ("objects/create/" ++ type) = true := by
+      simpa [someMatch, List.any_eq_true] using hm
+    have ha : Allowed u ("objects/create/" ++ type) o := ⟨p, hp, hw, Or.inl (hnofilter p hp hw)⟩
+    simp [(allowedB_iff _ _ _).2 ha]
+
+/-- **create_ignores_filter_counterexample** (F-C18b).  A user whose only entry for `objects/create/Host` is restricted
+    to the host "good" creates the host "evil": the model (as the code) grants it, the specification rejects it. -/
+theorem create_ignores_filter_counterexample :
+    let u : User := [⟨"objects/create/Host", some (fun _ o => some (o.name == "good"))⟩]
+    createGranted u "Host" = true ∧
+    specCreate u "Host" ⟨"Host", "evil"⟩ (createGranted u "Host") = some .createdAllowed ∧
+    specCreate u "Host" ⟨"Host", "good"⟩ (createGranted u "Host") = none := by decide
+
+/-- the hypothesis of `create_grant_partial` is satisfiable with a non-trivial user, and without a matching entry a
+    creation is rejected by the clause -/
+example : (∀ p ∈ ([⟨"objects/create/*", none⟩, ⟨"objects/query/Host", some (fun _ _ => some false)⟩] : User),
+      wildMatch p.pattern ("objects/create/" ++ "Host") = true → p.filter = none) ∧
+    specCreate [⟨"objects/query/*", none⟩] "Host" ⟨"Host", "x"⟩ true = some .rejectedFirst := by
+  refine ⟨?_, by decide⟩
+  intro p hp hw
+  simp only [List.mem_cons, List.not_mem_nil, or_false] at hp
+  rcases hp with rfl | rfl
+  · rfl
+  · exact absurd hw (by decide)
+
+/-- **entry_point_permissions_match_source.**  The permission strings the model uses for the entry points added in round 3
+    (create, config packages, debug, actions without types, the lookup of execute-command) are the ones the regenerated
+    table of `/repo/lib` contains; a table that lost `objects/create/<>` fails the check. -/
+theorem entry_point_permissions_match_source :
+    permissionTableOk Gen.handlerPermissions = true ∧
+    (actionQDT "a" ["Host", "Service"]).permission = "actions/a" ∧
+    (handlerQD "query" "Endpoint").permission = "objects/query/Endpoint" ∧
+    handlerPermission "cfgpackages" = some "config/query" ∧ handlerPermission "cfgcreate" = some "config/modify" ∧
+    handlerPermission "debug" = some "debug" ∧
+    handlerPermission "act:shutdown-process" = some "actions/shutdown-process" ∧
+    handlerPermission "act:restart-process" = some "actions/restart-process" ∧
+    handlerPermission "act:generate-ticket" = some "actions/generate-ticket" ∧
+    (["objects/create/<>", "config/query", "config/modify", "debug"].all Gen.handlerPermissions.contains) = true := by
+  decide
+
+example : permissionTableOk ["objects/query/<>", "objects/modify/<>", "objects/delete/<>", "actions/<>", "templates/query/<>",
+    "variables", "types", "status/query", "console", "config/query", "config/modify", "debug"] = false := by decide
 
 end Icinga.C18
